@@ -53,3 +53,91 @@ Print Assumptions C20_semver_bump.
 Example C20_dispatch_pycalver : has_v1_part [123;112;121;99;97;108;118;101;114;125] = true.
 Proof. vm_compute. reflexivity. Qed.
 Print Assumptions C20_dispatch_pycalver.
+
+(* ---- Proofs.V1Facts ---- *)
+From Coq Require Import List Bool NArith ZArith Arith.
+From BV Require Import Lib.PyStr Lib.Decimal Lib.Regex Model.V2 Model.V1 Proofs.V1Facts.
+Import ListNotations.
+(* semver_regex :
+   v1_compile_re (v1_normalize P_semver P_semver) = Some R_semver *)
+Theorem C20_semver_regex : ltac:(let t := type of semver_regex in exact t).
+Proof. exact semver_regex. Qed.
+Print Assumptions C20_semver_regex.
+
+(* pycalver_regex :
+   v1_compile_re (v1_normalize P_pycalver P_pycalver) = Some R_pycalver *)
+Theorem C20_pycalver_regex : ltac:(let t := type of pycalver_regex in exact t).
+Proof. exact pycalver_regex. Qed.
+Print Assumptions C20_pycalver_regex.
+
+(* v1_semver_render :
+   forall v : v1info, (0 <= w_major v)%Z -> (0 <= w_minor v)%Z -> (0 <= w_patch v)%Z -> has_key (w_tag v) Tables.PEP440_TAG_BY_TAG = true -> v1_format_version v P_semver = Some (zdec (w_major v) ++ [46%N] ++ zdec (w_minor v) ++ [46%N] ++ zdec (w_patch v)) *)
+Theorem C20_v1_semver_render : ltac:(let t := type of v1_semver_render in exact t).
+Proof. exact v1_semver_render. Qed.
+Print Assumptions C20_v1_semver_render.
+
+(* v1_semver_roundtrip :
+   forall ma mi pa : N, let s := dec ma ++ [46%N] ++ dec mi ++ [46%N] ++ dec pa in exists v : v1info, v1_parse_version_info s P_semver = POk v /\ w_major v = Z.of_N ma /\ w_minor v = Z.of_N mi /\ w_patch v = Z.of_N pa /\ w_tag v = s_final *)
+Theorem C20_v1_semver_roundtrip : ltac:(let t := type of v1_semver_roundtrip in exact t).
+Proof. exact v1_semver_roundtrip. Qed.
+Print Assumptions C20_v1_semver_roundtrip.
+
+(* v1_semver_parse_exact :
+   forall ma mi pa : N, v1_parse_version_info (dec ma ++ [46%N] ++ dec mi ++ [46%N] ++ dec pa) P_semver = POk {| w_year := None; w_quarter := None; w_month := None; w_dom := None; w_doy := None; w_iso_week := None; w_us_week := None; w_major := Z.of_N ma; w_minor := Z.of_N mi; w_patch := Z.of_N pa; w_bid := [48%N; 48%N; 48%N; 49%N]; w_tag := s_final |} *)
+Theorem C20_v1_semver_parse_exact : ltac:(let t := type of v1_semver_parse_exact in exact t).
+Proof. exact v1_semver_parse_exact. Qed.
+Print Assumptions C20_v1_semver_parse_exact.
+
+(* v1_semver_rejects_suffix :
+   forall (ma mi pa c : N) (t : list N), is_digit c = false -> v1_parse_version_info (dec ma ++ [46%N] ++ dec mi ++ [46%N] ++ dec pa ++ c :: t) P_semver = PErr *)
+Theorem C20_v1_semver_rejects_suffix : ltac:(let t := type of v1_semver_rejects_suffix in exact t).
+Proof. exact v1_semver_rejects_suffix. Qed.
+Print Assumptions C20_v1_semver_rejects_suffix.
+
+(* v1_semver_parse_render :
+   forall ma mi pa : N, let s := dec ma ++ [46%N] ++ dec mi ++ [46%N] ++ dec pa in exists v : v1info, v1_parse_version_info s P_semver = POk v /\ v1_format_version v P_semver = Some s *)
+Theorem C20_v1_semver_parse_render : ltac:(let t := type of v1_semver_parse_render in exact t).
+Proof. exact v1_semver_parse_render. Qed.
+Print Assumptions C20_v1_semver_parse_render.
+
+(* v1_pycalver_roundtrip :
+   forall (y m : N) (bid tag : list N), (1000 <= y <= 9999)%N -> (1 <= m <= 12)%N -> all_digits bid = true -> 4 <= length bid -> In tag v1_tags -> let s := [118%N] ++ dec y ++ pad 2 m ++ [46%N] ++ bid ++ [45%N] ++ tag in exists v : v1info, v1_parse_version_info s P_pycalver = POk v /\ w_year v = Some (Z.of_N y) /\ w_month v = Some (Z.of_N m) /\ w_bid v = bid /\ w_tag v = tag *)
+Theorem C20_v1_pycalver_roundtrip : ltac:(let t := type of v1_pycalver_roundtrip in exact t).
+Proof. exact v1_pycalver_roundtrip. Qed.
+Print Assumptions C20_v1_pycalver_roundtrip.
+
+(* v1_pycalver_roundtrip_final :
+   forall (y m : N) (bid : list N), (1000 <= y <= 9999)%N -> (1 <= m <= 12)%N -> all_digits bid = true -> 4 <= length bid -> let s := [118%N] ++ dec y ++ pad 2 m ++ [46%N] ++ bid in exists v : v1info, v1_parse_version_info s P_pycalver = POk v /\ w_year v = Some (Z.of_N y) /\ w_month v = Some (Z.of_N m) /\ w_bid v = bid /\ w_tag v = s_final *)
+Theorem C20_v1_pycalver_roundtrip_final : ltac:(let t := type of v1_pycalver_roundtrip_final in exact t).
+Proof. exact v1_pycalver_roundtrip_final. Qed.
+Print Assumptions C20_v1_pycalver_roundtrip_final.
+
+(* v1_pycalver_parse_exact :
+   forall (y m : N) (bid : list N) (otag : option (list N)), (1000 <= y <= 9999)%N -> (1 <= m <= 12)%N -> all_digits bid = true -> 4 <= length bid -> match otag with | Some t => In t (v1_tags ++ [s_final]) | None => True end -> v1_parse_version_info ([118%N] ++ dec y ++ pad 2 m ++ [46%N] ++ bid ++ match otag with | Some t => [45%N] ++ t | None => [] end) P_pycalver = POk {| w_year := Some (Z.of_N y); w_quarter := Some (Calendar.quarter_from_month (Z.of_N m)); w_month := Some (Z.of_N m); w_dom := None; w_doy := None; w_iso_week := None; w_us_week := None; w_major := 0; w_minor := 0; w_patch := 0; w_bid := bid; w_tag := match otag with | Some t => t | None => s_final end |} *)
+Theorem C20_v1_pycalver_parse_exact : ltac:(let t := type of v1_pycalver_parse_exact in exact t).
+Proof. exact v1_pycalver_parse_exact. Qed.
+Print Assumptions C20_v1_pycalver_parse_exact.
+
+(* v1_pycalver_rejects_suffix :
+   forall (y m : N) (bid tag : list N) (c : N) (t : list N), (1000 <= y <= 9999)%N -> (1 <= m <= 12)%N -> all_digits bid = true -> 4 <= length bid -> In tag v1_tags -> v1_parse_version_info ([118%N] ++ dec y ++ pad 2 m ++ [46%N] ++ bid ++ [45%N] ++ tag ++ c :: t) P_pycalver = PErr *)
+Theorem C20_v1_pycalver_rejects_suffix : ltac:(let t := type of v1_pycalver_rejects_suffix in exact t).
+Proof. exact v1_pycalver_rejects_suffix. Qed.
+Print Assumptions C20_v1_pycalver_rejects_suffix.
+
+(* v1_pycalver_render :
+   forall (v : v1info) (y m : N), w_year v = Some (Z.of_N y) -> w_month v = Some (Z.of_N m) -> has_key (w_tag v) Tables.PEP440_TAG_BY_TAG = true -> v1_format_version v P_pycalver = Some ([118%N] ++ dec y ++ pad 2 m ++ [46%N] ++ w_bid v ++ (if eqb_str (w_tag v) s_final then [] else [45%N] ++ w_tag v)) *)
+Theorem C20_v1_pycalver_render : ltac:(let t := type of v1_pycalver_render in exact t).
+Proof. exact v1_pycalver_render. Qed.
+Print Assumptions C20_v1_pycalver_render.
+
+(* v1_pycalver_parse_render :
+   forall (y m : N) (bid tag : list N), (1000 <= y <= 9999)%N -> (1 <= m <= 12)%N -> all_digits bid = true -> 4 <= length bid -> In tag v1_tags -> let s := [118%N] ++ dec y ++ pad 2 m ++ [46%N] ++ bid ++ [45%N] ++ tag in exists v : v1info, v1_parse_version_info s P_pycalver = POk v /\ v1_format_version v P_pycalver = Some s *)
+Theorem C20_v1_pycalver_parse_render : ltac:(let t := type of v1_pycalver_parse_render in exact t).
+Proof. exact v1_pycalver_parse_render. Qed.
+Print Assumptions C20_v1_pycalver_parse_render.
+
+(* v1_pycalver_parse_render_final :
+   forall (y m : N) (bid : list N), (1000 <= y <= 9999)%N -> (1 <= m <= 12)%N -> all_digits bid = true -> 4 <= length bid -> let s := [118%N] ++ dec y ++ pad 2 m ++ [46%N] ++ bid in exists v : v1info, v1_parse_version_info s P_pycalver = POk v /\ v1_format_version v P_pycalver = Some s *)
+Theorem C20_v1_pycalver_parse_render_final : ltac:(let t := type of v1_pycalver_parse_render_final in exact t).
+Proof. exact v1_pycalver_parse_render_final. Qed.
+Print Assumptions C20_v1_pycalver_parse_render_final.
